@@ -9,7 +9,8 @@ RULE = ("Exhaustive over the mass table: for every tolerance in {0.01,0.1,0.5} e
         "non-atomic masses below the lightest, in every gap wider than 2*tol and above the heaviest; each through the "
         "real guess_elements_from_masses (postcondition contract + independent nearest-element oracle), singly and in "
         "batches, and end-to-end through save_lmpdat/load_lmpdat (all elements, random subsets, subsets with one "
-        "non-atomic mass). A case is non-trivial if at least one mass in it is not an exact table mass; distinct by "
+        "non-atomic mass); the same mass asked with several tolerances in turn, loosest first, "
+        "directly and through load_lmpdat. A case is non-trivial if at least one mass in it is not an exact table mass; distinct by "
         "(kind, tolerance, masses).")
 ASSUMPTIONS = ["ATOMIC_MASSES is the property's given data", "boundary points exactly at tolerance are never generated (floating point)"]
 ANCHOR_FUNCS = [("mofun/helpers.py", "guess_elements_from_masses"), ("mofun/atoms.py", "Atoms.load_lmpdat")]
@@ -61,6 +62,10 @@ def cases(tier, seed):
             out.append({"kind": "direct", "tol": tol, "points": pts[i:i + 60]})
     rng = np.random.default_rng([14, seed])
     els = list(tab)
+    # the same masses asked again with other tolerances in one process, loosest first: an answer must not outlive its tolerance
+    for i in range(0, len(els), 15):
+        out.append({"kind": "tolerance_history", "elements": els[i:i + 15], "tols": [[0.5, 0.1, 0.01, 0.1, 0.5], [0.5, 0.01, 0.1], [0.01, 0.5, 0.1]][(i // 15) % 3],
+                    "via_file": (i // 15) % 2 == 1})
     out.append({"kind": "file_all", "tol": 0.1, "atom_format": "full"})
     out.append({"kind": "file_all", "tol": 0.1, "atom_format": "atomic"})
     out.append({"kind": "file_all", "tol": 0.01, "atom_format": "full"})
@@ -124,6 +129,33 @@ def run_case(case, ctx):
         return
 
     from mofun import Atoms
+    if case["kind"] == "tolerance_history":
+        offs = [0.3, -0.3, 0.05, -0.05, 0.004]
+        for e in case["elements"]:
+            for off in offs:
+                m = float("%10.6f" % (tab[e] + off))
+                if m <= 0:
+                    continue
+                for tol in case["tols"]:
+                    exp = expected(m, tol, tab)
+                    if case["via_file"]:
+                        a = Atoms(atom_types=[0], positions=[[0.0, 0.0, 0.0]], atom_type_elements=["X"], atom_type_masses=[m], atom_type_labels=["t0"], cell=np.eye(3) * 9)
+                        f = io.StringIO()
+                        a.save_lmpdat(f)
+                        text = "\n".join(l.split("#")[0].rstrip() if "#" in l else l for l in f.getvalue().split("\n"))
+                        got = list(Atoms.load_lmpdat(io.StringIO(text), guess_atol=tol).atom_type_elements)
+                        ok = (got == ["1"]) if exp is None else (got[0] in exp)
+                    else:
+                        got, exc = _call([m], tol)
+                        ok = (exc is not None) if exp is None else (exc is None and got[0] in exp)
+                    st.count("history.guesses")
+                    if exp is None:
+                        st.count("history.expected_no_element")
+                    if not ok:
+                        ctx.fail("mass %r asked with tolerances %s in turn: at tolerance %g the answer is %r, the nearest-element rule gives %s" %
+                                 (m, case["tols"], tol, got, "no element" if exp is None else sorted(exp)), witness={"mass": m, "tolerances": case["tols"], "tol": tol, "via_file": case["via_file"]})
+        ctx.nontrivial(["tolerance_history", case["elements"][0], case["via_file"]])
+        return
     if case["kind"] == "file_all":
         elements = list(tab)
         masses = [tab[e] for e in elements]
@@ -195,6 +227,8 @@ def requirements(stats, tier):
         need.append("both outcomes (element / raise) must be exercised")
     if stats.get("contract_eval.C14.guess_post") < 1000:
         need.append("C14 postcondition contract evaluated only %d times" % stats.get("contract_eval.C14.guess_post"))
+    if stats.get("history.guesses") < 1000 or stats.get("history.expected_no_element") < 200:
+        need.append("the same mass asked with several tolerances in turn: %d guesses" % stats.get("history.guesses"))
     if stats.get("file.fallback_expected") < 3 or stats.get("file.elements_expected") < 3:
         need.append("load_lmpdat must be observed on both the element and the fallback path")
     return need
